@@ -1,0 +1,15 @@
+//go:build verif
+
+package jsonrpc2
+
+// VerifPendingLen reports how many in-flight call ids a Conn created by NewConn still holds
+// in its pending map (-1 when c is not such a Conn). Verification harness (C18) only.
+func VerifPendingLen(c Conn) int {
+	cc, ok := c.(*conn)
+	if !ok {
+		return -1
+	}
+	cc.pendingMu.Lock()
+	defer cc.pendingMu.Unlock()
+	return len(cc.pending)
+}
